@@ -1,8 +1,9 @@
 """C01 - requests reach only upstreams of the addressed endpoint, from any node."""
 from props.proxy_common import *
+from props import urlpath_probe
 
 ID = "C01"
-COQ_TARGETS = ["Run/Run_Proxy.vo", "Run/Run_ProxyDyn.vo", "ProxyP/DynamicP.vo"]
+COQ_TARGETS = ["Run/Run_Proxy.vo", "Run/Run_ProxyDyn.vo", "ProxyP/DynamicP.vo", "Run/Run_UrlPath.vo"]
 META = {
     "text": "Composition (Compose/*.v): C01_settled_from_convergence and C01_end_to_end derive the proxy model's [settled] - and hence 'served iff some node's manager holds an upstream for E, else 502' - from the lower layers: managers' registries (C05 invariant), converged gossip views (C03_converged_views + id closure), watcher fold (C14) and syncer table (C04). Theorems (Properties/C01.v) over the Gallina cluster model of piko's proxy data path (EndpointIDFromRequest incl. net.SplitHostPort/net.ParseIP, gin route "
             "choice, LoadBalancedManager.Select, State.LookupEndpoint, the per-hop request transformation of ServeHTTPWithUpstream+ReverseProxy incl. keepControlHeaders, "
@@ -11,7 +12,9 @@ META = {
             "answers 502 iff none has; the TCP route uses the path parameter; the pinned transform is refuted (H2). The model is tied to server/proxy, server/upstream and "
             "server/cluster by driving 1..4 REAL proxy.Server instances (real LoadBalancedManager + cluster.State, injected views, scripted upstreams) and comparing status, "
             "answering upstream, per-node handler invocations and the request recorded by the upstream with the model inside Coq, plus ~5000 hosts compared directly with "
-            "EndpointIDFromRequest.",
+            "EndpointIDFromRequest. The endpoint id's way from the client into the route is modelled too (Proxy/UrlPath.v: net/url path escaping in client.Dialer / client.Upstream, "
+            "net/http's decoding, gin's parameter match): for every byte string the id is routed under its own name or not at all (C01_url_roundtrip, C01_dialled_only_named, "
+            "C01_dialled_is_named; the string-concatenation variant is refuted), compared with the real client rendering + real request parser + gin on ~190 ids per run.",
     "note": "Partial: net/http parsing, httputil.ReverseProxy, gin dispatch, gorilla/websocket and TCP are environment (exercised, not proved); the one ReverseProxy behaviour the "
             "property depends on (hop-by-hop removal after piko's header edits) is in the model. Token verification (401) is modelled as an abstract permitted-endpoints list and not "
             "exercised here (C10).",
@@ -31,8 +34,17 @@ TRUSTED = ["python monitor C01 (props/proxy_common.py monitor_c01) with its own 
 
 
 def run(ctx):
-    return run_property(ctx, ID, 34, 5000)
+    res = run_property(ctx, ID, 34, 5000)
+    # the endpoint id on its way from the client into the route (real client.Dialer / Upstream, net/http parser, gin) vs Proxy/UrlPath.v
+    ucov, uviol = urlpath_probe.run(ctx, ID)
+    res["coverage"]["url_path"] = ucov
+    res["violations"] = list(res.get("violations") or []) + uviol
+    return res
 
 
 def replay(path, wd):
+    import json
+    obj = json.load(open(path))
+    if obj.get("kind") == "urlpath":
+        return urlpath_probe.replay(obj, wd)
     return replay_property(ID, path, wd)
